@@ -1457,6 +1457,40 @@ func genC06JKS(c *Ctx) {
 		emit("corpus", true, []jksEntry{{typ: 3, alias: "s", date: 7, blob: b.blob, seal: b.seal, key: b.key}, {typ: 1, alias: "k", date: 8, key: keys[len(keys)-3], certs: []jksCert{good}}})
 	}
 	emit("corpus", false, []jksEntry{})
+	// ---- the limits of the stream format: everything the reader accepts must be listed ----
+	emitV := func(tag string, jce bool, version uint32, mac []byte, es []jksEntry) {
+		magic := keystore.JKSMagic
+		if jce {
+			magic = keystore.JCEKSMagic
+		}
+		c06JKSCase(c, tag, c06WriteJKS(magic, version, es, mac), magic, version, es, mac)
+	}
+	zeroMac, ffMac := make([]byte, 20), bytes.Repeat([]byte{0xff}, 20)
+	longAlias := strings.Repeat("a", 65535) // the longest alias a u16 length can announce
+	for _, jce := range []bool{false, true} {
+		emitV("limits", jce, 2, zeroMac, []jksEntry{{typ: 2, alias: longAlias, date: 1, certs: []jksCert{good}}, {typ: 1, alias: longAlias, date: 2, key: keys[0], certs: []jksCert{good2}}})
+		// modified UTF-8 as java.io.DataOutputStream.writeUTF produces it: NUL as C0 80, a supplementary character as a surrogate pair
+		emitV("limits", jce, 2, ffMac, []jksEntry{{typ: 2, alias: "nul\xc0\x80inside", date: 3, certs: []jksCert{good}}, {typ: 2, alias: "\xed\xa0\xbd\xed\xb8\x80", date: 4, certs: []jksCert{good2}}, {typ: 2, alias: "raw\x00nul", date: 5, certs: []jksCert{good}}})
+		// chains of length 0, an empty key, empty certificates
+		emitV("limits", jce, 2, zeroMac, []jksEntry{{typ: 1, alias: "nochain", date: 6, key: keys[0]}, {typ: 1, alias: "nokey", date: 7}, {typ: 2, alias: "emptycert", date: 8, certs: []jksCert{{"X.509", nil}}}, {typ: 2, alias: "emptytype", date: 9, certs: []jksCert{{"", nil}}}})
+		// timestamps at the limits of int64 milliseconds
+		emitV("limits", jce, 2, ffMac, []jksEntry{{typ: 2, alias: "min", date: 1 << 63, certs: []jksCert{good}}, {typ: 2, alias: "max", date: 1<<63 - 1, certs: []jksCert{good}},
+			{typ: 2, alias: "minus1", date: ^uint64(0), certs: []jksCert{good}}, {typ: 2, alias: "zero", date: 0, certs: []jksCert{good}}})
+		// the version field is not interpreted
+		for _, v := range []uint32{0, 1, 3, 0xffffffff} {
+			emitV("limits", jce, v, zeroMac, []jksEntry{{typ: 2, alias: "v", date: 10, certs: []jksCert{good}}})
+		}
+		emitV("limits", jce, 0xffffffff, ffMac, []jksEntry{})
+		// a SecretKeyEntry under either magic, first, last and between other entries
+		if len(blobs) > 0 {
+			b := blobs[len(blobs)-1]
+			sec := jksEntry{typ: 3, alias: "secret", date: 11, blob: b.blob, seal: b.seal, key: b.key}
+			emitV("limits", jce, 2, zeroMac, []jksEntry{sec})
+			emitV("limits", jce, 2, zeroMac, []jksEntry{sec, {typ: 2, alias: "t", date: 12, certs: []jksCert{good}}, sec, {typ: 1, alias: "k", date: 13, key: keys[0], certs: []jksCert{good, good2}}, sec})
+		}
+		// entry types the reader does not know have no body
+		emitV("limits", jce, 2, zeroMac, []jksEntry{{typ: 0, alias: "zero", date: 14}, {typ: 0xffffffff, alias: "max", date: 15}, {typ: 2, alias: "t", date: 16, certs: []jksCert{good}}})
+	}
 	// ---- generated stores ----
 	maxN, per := 8, 12
 	if c.Thorough() {
